@@ -45,6 +45,10 @@ class BatchScenario:
         # the data set itself, one common row per evaluation
         self.imputer_kind = kw.get("imputer_kind", None)
         self.foreign = kw.get("foreign", False)
+        # the model reads more features than the explainer is asked to explain: every observation carries one key that is not
+        # in feature_names (its value identifies the observation).  Features outside feature_names are never in a coalition's
+        # complement - every model input built for an observation must carry that observation's own value of it.
+        self.hidden = kw.get("hidden", False)
 
     def to_json(self):
         d = dict(self.__dict__)
@@ -80,6 +84,17 @@ def run(sc, tape_mode="log", script=None, provider=None):
 
     def xvec(x):
         return [x[nm] for nm in names]
+
+    HID = "not explained"
+
+    def hid_of(xs):
+        return float(sum((i + 2) * float(v) * 13 ** i for i, v in enumerate(xs))) + 0.25
+
+    def xdict(xs):
+        x = {nm: float(v) for nm, v in zip(names, xs)}
+        if sc.hidden:
+            x[HID] = hid_of(xs)
+        return x
 
     def raw_model(x):
         v = xvec(x)
@@ -118,7 +133,8 @@ def run(sc, tape_mode="log", script=None, provider=None):
             return out
         cb("model")
         out = raw_model(x)
-        st["events"].append({"k": "model", "x": [red(v) for v in xvec(x)], "out": lab_pairs(out), "imp": st["in_imp"]})
+        st["events"].append({"k": "model", "x": [red(v) for v in xvec(x)], "out": lab_pairs(out), "imp": st["in_imp"],
+                             "hid": x.get(HID) if isinstance(x, dict) else None})
         return out
 
     def loss(y_true, y_pred):
@@ -247,6 +263,7 @@ def run(sc, tape_mode="log", script=None, provider=None):
             c["batch_in"], c["batch_out"], c["obs"], c["exact"] = [], [], [], False
             c["exact_m"], c["exact_n"] = _is_pow2(len(rows_explained)), _is_pow2(c["n"] or 1)
             c["shape_ok"] = True
+            c["hidden_ok"] = True
             if not c["recomputed"]:
                 return
             try:
@@ -273,6 +290,7 @@ def run(sc, tape_mode="log", script=None, provider=None):
                     elif e["k"] == "model":
                         curb["outs"][-1].append(e["out"])
                         curb["ins"][-1].append(e["x"])
+                        curb.setdefault("hids", []).append(e.get("hid"))
                     elif e["k"] == "loss":
                         curb["L"].append(e["val"])
                         curb["Lraw"].append(e["raw"])
@@ -291,6 +309,9 @@ def run(sc, tape_mode="log", script=None, provider=None):
                     if len(b["outs"]) != d + 1 or b["outs"][0]:
                         raise ValueError("unexpected grouping of model calls")
                     outs, ins = b["outs"][1:], b["ins"][1:]
+                    # (the original mode takes whole rows of the data set as background, unexplained keys included)
+                    if sc.hidden and "original" not in str(sc.mode) and any(h != hid_of(xs) for h in b.get("hids", [])):
+                        c["hidden_ok"] = False
                     if b["subsets"] and len(b["subsets"]) == d:
                         order = []
                         prev = set(range(1, d + 1))
@@ -318,7 +339,7 @@ def run(sc, tape_mode="log", script=None, provider=None):
                 c["obs"] = []
 
         if sc.cls == "batch":
-            data = [({nm: float(v) for nm, v in zip(names, xs)}, y) for xs, y in sc.rows]
+            data = [(xdict(xs), y) for xs, y in sc.rows]
             if sc.mode in ("many", "original"):
                 if sc.foreign and sc.mode == "original":
                     for x, y in data:
@@ -366,7 +387,7 @@ def run(sc, tape_mode="log", script=None, provider=None):
                         held.append(sc.rows[ci])
         else:
             for ci, ((xs, y), (force, upd)) in enumerate(zip(sc.rows, sc.calls)):
-                x = {nm: float(v) for nm, v in zip(names, xs)}
+                x = xdict(xs)
                 if upd:
                     updated.append((xs, y))
                 win = updated[-sc.storage_len:] if sc.storage_len > 0 else []
